@@ -2060,7 +2060,7 @@ lyd_validate(struct lyd_node **tree, const struct lys_module *module, const stru
         if (val_opts & LYD_VALIDATE_PRESENT) {
             mod = lyd_data_next_module(&next, &first);
         } else {
-            mod = lyd_mod_next_module(next, module, ctx, &i, &first);
+            mod = lyd_mod_next_module(*tree, module, ctx, &i, &first);
         }
         if (!mod) {
             break;
